@@ -318,6 +318,13 @@ def _build(case, M, rng):
     if case['oro']:
       oro = model._scaled_field(rng, grid, (), min(6, lmax), 1.0,  # pylint: disable=protected-access
                                 0.05 * float(ref_pot[-1])).astype(dtype)
+    if oro is not None and case.get('oro_top', True):
+      # an orography as `grid.to_modal(nodal mountain)` gives it: energy in the top total
+      # wavenumber too (nothing in the API asks the caller to clip it)
+      Lt = grid.total_wavenumbers - 1
+      oro = (oro + 0.05 * float(np.abs(oro).max()) * gen.rand_modal(
+          rng, grid, (), lmin=Lt, lmax=Lt)).astype(dtype)
+      w['oro_top'] = True
     eq = sw.ShallowWaterEquations(coords, specs, oro, ref_pot)
     state = sw.State(vorticity=vor.astype(dtype), divergence=div.astype(dtype),
                      potential=pot.astype(dtype))
@@ -337,6 +344,11 @@ def _build(case, M, rng):
     state = model.to_state(si, specs, with_time=with_time, dtype=dtype)
     oro_si = model.orography_si(rng, grid, lmax=8, height=float(rng.uniform(500, 3000)) if case['oro'] else 0.0)
     oro = model.nondim_orography(oro_si, specs, dtype)
+    if case['oro'] and case.get('oro_top', True):
+      Lt = grid.total_wavenumbers - 1
+      oro = (oro + 0.05 * float(np.abs(oro).max()) * gen.rand_modal(
+          rng, grid, (), lmin=Lt, lmax=Lt)).astype(dtype)
+      w['oro_top'] = True
     tref = model.tref_profile(rng, K, case['tref'], centers=coords.vertical.centers)
     eq = model.make_eq(case['eq'], tref.astype(dtype), oro, coords, specs)
     w.update(has_uniform=True, has_time=with_time, sw=False, boundaries=bnd.tolist())
